@@ -144,6 +144,7 @@ J ExecOp::to_json() const {
     if (envp_null) j.set("envp", J()); else j.set("envp", jstrs(envp));
     if (argv0_null_hidden) j.set("argv0_null_hidden", true);
     if (entry_errno) j.set("entry_errno", entry_errno);
+    if (forks_before) j.set("forks_before", forks_before);
     J o = J::obj();
     if (success) o.set("success", true); else { o.set("ret", ret); o.set("errno", err); }
     j.set("outcome", o);
@@ -156,7 +157,7 @@ ExecOp ExecOp::from_json(const J &j) {
     e.api = j.gets("api", "execve") == "execv" ? 0 : 1; e.path = j.gets("path");
     const J *a = j.find("argv"); if (!a || a->is_null()) e.argv_null = true; else e.argv = jstrs(*a);
     const J *v = j.find("envp"); if (!v || v->is_null()) e.envp_null = true; else e.envp = jstrs(*v);
-    e.argv0_null_hidden = j.getb("argv0_null_hidden"); e.entry_errno = (int)j.geti("entry_errno", 0);
+    e.argv0_null_hidden = j.getb("argv0_null_hidden"); e.entry_errno = (int)j.geti("entry_errno", 0); e.forks_before = (int)j.geti("forks_before", 0);
     const J &o = j.at("outcome");
     e.success = o.getb("success"); e.ret = (int)o.geti("ret", -1); e.err = (int)o.geti("errno", 2);
     for (auto &f : j.at("faults").a) e.faults.push_back(Fault::from_json(f));
@@ -173,6 +174,7 @@ J Op::to_json() const {
         j.set("threads", ts); j.set("policy", policy); j.set("pct_d", pct_d); j.set("sched_seed", (unsigned long long)sched_seed);
         if (have_schedule) { J s = J::arr(); for (int c : schedule) s.push(J(c)); j.set("schedule", s); }
         if (app_opens) j.set("app_opens", app_opens);
+        if (!child_ex.path.empty()) j.set("child", child_ex.to_json());
     } else if (op == "ForkExec") {
         j.set("call", ex.to_json()); j.set("fork_point", fork_point); j.set("child", child_ex.to_json()); j.set("grandchild", grandchild); if (fork_window) j.set("fork_window", true);
         if (!extra_calls.empty()) { J xs = J::arr(); for (size_t i = 0; i < extra_calls.size(); i++) { J x = J::obj(); x.set("call", extra_calls[i].to_json()); x.set("point", extra_points[i]); xs.push(x); } j.set("others", xs); }
@@ -188,6 +190,7 @@ Op Op::from_json(const J &j) {
         o.policy = (int)j.geti("policy"); o.pct_d = (int)j.geti("pct_d", 1); o.sched_seed = (uint64_t)j.geti("sched_seed");
         if (j.has("schedule")) { o.have_schedule = true; for (auto &c : j.at("schedule").a) o.schedule.push_back((int)c.i); }
         o.app_opens = (int)j.geti("app_opens", 0);
+        if (j.has("child")) o.child_ex = ExecOp::from_json(j.at("child"));
     } else if (o.op == "ForkExec") {
         o.ex = ExecOp::from_json(j.at("call")); o.fork_point = (int)j.geti("fork_point"); o.child_ex = ExecOp::from_json(j.at("child")); o.grandchild = j.getb("grandchild"); o.fork_window = j.getb("fork_window");
         if (j.has("others")) for (auto &x : j.at("others").a) { o.extra_calls.push_back(ExecOp::from_json(x.at("call"))); o.extra_points.push_back((int)x.geti("point")); }
